@@ -4309,7 +4309,7 @@ impl PictureMetrics {
                         media_type: "image/jpeg",
                         width: width.into(),
                         height: height.into(),
-                        color_depth: (data_precision * components).into(),
+                        color_depth: u32::from(data_precision) * u32::from(components),
                         colors_used: None,
                     });
                 }
